@@ -130,6 +130,33 @@ def _pieces(P, f, pc, dst_arg, src_args):
                     problems.append((ld, f'line {ld.line} reads offset {lp[1]} of {lp[0]} while offset {pt[1]} is written: source and destination lanes differ'))
     return pieces, problems
 
+def _tail_run(P, f, pc, chain, n, cur, size):
+    """chain[n:] are single one-byte stores at cur, cur + 1, ...; store j runs exactly when at least j + 1 bytes are left
+    (size - cur >= j + 1), and there are enough of them for every remainder smaller than the previous loop's element width"""
+    from .guards import PolyFacts
+    singles = chain[n:]
+    prev = chain[n - 1]
+    if any(q['kind'] != 'single' or q['w'] != 1 for q in singles) or prev['w'] < 2 or len(singles) < prev['w'] - 1:
+        return False
+    L = prev['loop']
+    if L is None or not L.exits:
+        return False
+    base = {str(Q) for Q in PolyFacts(P, f, L.exits[0][1], pc=pc).ge}
+    for j, q in enumerate(singles):
+        if q['a'] != cur + Poly.const(j):
+            return False
+        need = size - cur - Poly.const(j + 1)
+        PFq = PolyFacts(P, f, q['store'].bb, pc=pc)
+        if not PFq.implies(need):
+            return False
+        for Q in PFq.ge:
+            if str(Q) in base:
+                continue
+            d = Q - need
+            if not (d.is_const() and d.const_value() >= 0):
+                return False                # guarded by something stronger than "j + 1 bytes are left"
+    return True
+
 def _chains(f, pieces):
     """maximal sequences of pieces that can execute one after the other (pieces in exclusive branches form separate chains)"""
     from .cfg import reachable_from
@@ -193,6 +220,13 @@ def cover_rule(P, r, fname, src_args, dst_arg, size_arg):
                   cur = p['a'] + p['b'] * p['T']
                   if last and p['w'] != 1 and cur != size:
                       fails.append(f'the last loop works on {p["w"]}-byte elements and ends at {cur}: a remainder smaller than {p["w"]} bytes is never processed')
+              elif done_single == 'run':
+                  continue                    # one of the tail bytes already accounted for below
+              elif n > 0 and chain[n - 1]['kind'] == 'loop' and _tail_run(P, f, pc, chain, n, cur, size):
+                  # the tail written out byte by byte under `rem > 0`, `rem > 1`, ... (an unrolled tail loop): complete when there
+                  # is a store for every remainder the element width allows
+                  cur = size
+                  done_single = 'run'
               else:
                   # single trailing byte: offset size-1 under size % 2 == 1, after 2-byte elements
                   F = Facts(P, f, p['store'].bb)
